@@ -20,7 +20,7 @@ def replay(pid, finding, build, env, artifact):
         cmd = "vec-hint" if "vec" in h else "array-extra"
     elif crate == "arith":
         if "amount_encoding" in h:
-            cmd = "amount-min"
+            cmd = "amount-encoding"
         elif "decoded" in h or "try_add_on_decoded" in h:
             cmd = "decode-balance"
         else:
